@@ -183,8 +183,9 @@ pub fn run(ctx: &Ctx, rep: &mut Report) {
             (32768, 32768, 2048), (61440, 4096, usize::MAX), (4096, 61440, usize::MAX), (65535, 1, usize::MAX), (1, 65535, usize::MAX), (65534, 2, usize::MAX), (2, 65534, usize::MAX),
         ]
     } else {
-        vec![(255, 1, usize::MAX), (257, 255, usize::MAX), (1000, 100, usize::MAX), (100, 1000, usize::MAX), (65535, 1, 1024), (1, 65535, usize::MAX), (4097, 4095, 1024)]
+        vec![(255, 1, usize::MAX), (257, 255, usize::MAX), (1000, 100, usize::MAX), (100, 1000, usize::MAX), (65535, 1, 1024), (1, 65535, usize::MAX), (4097, 4095, 1024), (10000, 10000, 1024), (1000, 20000, usize::MAX), (20000, 1000, 1024)]
     };
+    let big: Vec<(usize, usize, usize)> = if ctx.thorough() { big.into_iter().chain([(10000, 10000, 4096), (1000, 20000, usize::MAX), (20000, 1000, 4096), (16385, 3, usize::MAX), (3, 16385, usize::MAX)]).collect() } else { big };
     for &(k, r, cols) in &big {
         for rate in ["high", "low"] {
             let kind = Kind::parse(rate);
